@@ -116,6 +116,17 @@ theorem bilinear_between_corners (underlying : α → α → α) (su : SpeedUnit
     · exact c2
     · rw [c1]; exact le_of_lt hy01
 
+/-- C14: `predict` never fails, whatever the input and its units (inside, on a line, on the boundary,
+outside), and reports the model's own rate unit -/
+theorem predict_never_fails (underlying : α → α → α) (su : SpeedUnit) (s0 s1 : α) (sb : Nat)
+    (gu : GradeUnit) (g0 g1 : α) (gb : Nat) (ru : EnergyRateUnit) (m : SpeedGradeModel α)
+    (hnew : SpeedGradeModel.new underlying su s0 s1 sb gu g0 g1 gb ru = .ok m) (hsb : 2 ≤ sb)
+    (hgb : 2 ≤ gb) (speed : α) (qsu : SpeedUnit) (grade : α) (qgu : GradeUnit) :
+    ∃ v, m.predict speed qsu grade qgu = .ok (v, ru) := by
+  obtain ⟨_, _, _, _, _, _, _, _, v, _, _, _, _, _, _, _, _, _, _, hp, _⟩ :=
+    bilinear_between_corners underlying su s0 s1 sb gu g0 g1 gb ru m hnew hsb hgb speed qsu grade qgu
+  exact ⟨v, hp⟩
+
 /-- C14: at a grid point (an input that converts to grid values) the prediction is the underlying
 model's value at that grid point -/
 theorem exact_on_grid (underlying : α → α → α) (su : SpeedUnit) (s0 s1 : α) (sb : Nat)
@@ -256,17 +267,7 @@ theorem multilinear_exact_1d (x f : List α) (hv : validate1 x f = .ok ()) (hlen
     (c0 c1 : α) (hF : ∀ (i : Nat) (xi : α), x[i]? = some xi → f[i]? = some (c0 + c1 * xi))
     (p : α) (hp : InAxis x p) :
     Interpolator.interpolate (.d1 x f) [p] .linear = .ok (c0 + c1 * p) := by
-  have hs : strictlyIncreasing x = true ∧ x.length = f.length := by
-    unfold validate1 at hv
-    split at hv
-    · cases hv
-    · split at hv
-      · cases hv
-      · split at hv
-        · cases hv
-        · rename_i h2 h3
-          simp only [Bool.not_eq_true', Bool.not_eq_false] at h2
-          exact ⟨h2, not_not.mp h3⟩
+  have hs := validate1_ok hv
   obtain ⟨l, d, _, sl, hl⟩ := linear1_ok x f p ⟨hs.1, hlen⟩ hs.2 hp
   rw [interpolate_d1_in x f p hp, hl, sl.affine (F1 f) c1 c0]
   · congr 1; ring
@@ -297,9 +298,8 @@ theorem multilinear_exact_2d (x y : List α) (f : List (List α)) (hv : validate
   exact Res.ok.inj this
 
 /-- 3-D: data sampled from the general trilinear polynomial (8 coefficients) -/
-theorem multilinear_exact_3d (x y z : List α) (f : List (List (List α))) (hx : strictlyIncreasing x = true)
-    (hy : strictlyIncreasing y = true) (hz : strictlyIncreasing z = true)
-    (hr : Rect3 f x.length y.length z.length)
+theorem multilinear_exact_3d (x y z : List α) (f : List (List (List α)))
+    (hv : validate3 x y z f = .ok ())
     (hlx : 2 ≤ x.length) (hly : 2 ≤ y.length) (hlz : 2 ≤ z.length) (c0 c1 c2 c3 c4 c5 c6 c7 : α)
     (hF : ∀ i j k xi yj zk, x[i]? = some xi → y[j]? = some yj → z[k]? = some zk →
       idx3 f i j k = .ok (c0 + c1 * xi + c2 * yj + c3 * xi * yj + c4 * zk + c5 * xi * zk + c6 * yj * zk
@@ -308,6 +308,7 @@ theorem multilinear_exact_3d (x y z : List α) (f : List (List (List α))) (hx :
     Interpolator.interpolate (.d3 x y z f) [p0, p1, p2] .linear =
       .ok (c0 + c1 * p0 + c2 * p1 + c3 * p0 * p1 + c4 * p2 + c5 * p0 * p2 + c6 * p1 * p2
         + c7 * p0 * p1 * p2) := by
+  obtain ⟨hx, hy, hz, hr⟩ := validate3_ok hv
   obtain ⟨lx, dx, ly, dy, lz, dz, _, _, _, selx, sely, selz, hl⟩ :=
     linear3_ok x y z f p0 p1 p2 ⟨hx, hlx⟩ ⟨hy, hly⟩ ⟨hz, hlz⟩ hr h0 h1 h2
   rw [interpolate_d3_in x y z f p0 p1 p2 h0 h1 h2, hl,
@@ -325,6 +326,13 @@ theorem multilinear_exact_3d (x y z : List α) (f : List (List (List α))) (hx :
   have := hF i j k xi yj zk hi hj hk
   rw [idx3_ok hr hi' hj' hk'] at this
   exact Res.ok.inj this
+
+/-- the hypotheses on the grids in the N-D theorems below are what `InterpND::new` checks, plus the
+property's "at least two points per axis" -/
+theorem nd_new_gives_valid_grids (m : ND α) (hv : validateN m = .ok ()) (h2 : ∀ s ∈ m.shape, 2 ≤ s)
+    (hne : m.shape ≠ []) :
+    List.Forall₂ (fun g s => (strictlyIncreasing g = true ∧ 2 ≤ g.length) ∧ g.length = s) m.grid m.shape :=
+  validateN_grids m hv h2 hne
 
 /-- N-D, by induction on the dimension: data sampled from any function `M` of the coordinates that is
 affine in each coordinate separately (the multilinear polynomials) is reproduced exactly, in any number of
@@ -356,9 +364,9 @@ theorem multiAffine_bilinear (c0 c1 c2 c3 : α) :
 `nd1 / nd2 / nd3` are the N-D interpolators over the same grid and the same values stored row-major (what
 `ArrayD::from_shape_vec` holds); agreement is for every point, inside (same value) and outside (both reject). -/
 
-theorem nd_agrees_1d (x f : List α) (hs : strictlyIncreasing x = true) (hlen : 2 ≤ x.length)
-    (hf : x.length = f.length) (p : α) :
+theorem nd_agrees_1d (x f : List α) (hv : validate1 x f = .ok ()) (hlen : 2 ≤ x.length) (p : α) :
     Interpolator.interpolate (.dn (nd1 x f)) [p] .linear = Interpolator.interpolate (.d1 x f) [p] .linear := by
+  obtain ⟨hs, hf⟩ := validate1_ok hv
   have V := nd1_valid x f ⟨hs, hlen⟩ hf
   have hx : x ≠ [] := by intro h; rw [h] at hlen; simp at hlen
   by_cases h : InAxis x p
@@ -390,12 +398,11 @@ theorem nd_agrees_2d (x y : List α) (f : List (List α)) (hv : validate2 x y f 
       cases rest with
       | cons b _ => exact h ⟨a, b⟩
 
-theorem nd_agrees_3d (x y z : List α) (f : List (List (List α))) (hx : strictlyIncreasing x = true)
-    (hy : strictlyIncreasing y = true) (hz : strictlyIncreasing z = true)
-    (hr : Rect3 f x.length y.length z.length)
+theorem nd_agrees_3d (x y z : List α) (f : List (List (List α))) (hv : validate3 x y z f = .ok ())
     (hlx : 2 ≤ x.length) (hly : 2 ≤ y.length) (hlz : 2 ≤ z.length) (p0 p1 p2 : α) :
     Interpolator.interpolate (.dn (nd3 x y z f)) [p0, p1, p2] .linear =
       Interpolator.interpolate (.d3 x y z f) [p0, p1, p2] .linear := by
+  obtain ⟨hx, hy, hz, hr⟩ := validate3_ok hv
   have V := nd3_valid x y z f ⟨hx, hlx⟩ ⟨hy, hly⟩ ⟨hz, hlz⟩ hr
   have hxne : x ≠ [] := by intro h; rw [h] at hlx; simp at hlx
   have hyne : y ≠ [] := by intro h; rw [h] at hly; simp at hly
